@@ -1283,6 +1283,48 @@ MUTANTS = [
       (RE, """                if reuse is True and executor is not None:
                     max_workers = executor._max_workers""", """                if not (reuse is True and executor is not None):
                     max_workers = executor._max_workers""")),
+    # ------------------------------------- round-3 seeds
+    M("feeder-popped-object-overwritten-by-bytes", ["C01", "C04"], ["R-FEEDER"],
+      (QU, """                        obj_ = dumps(obj, reducers=reducers)
+                        if wacquire is None:
+                            send_bytes(obj_)
+                        else:
+                            wacquire()
+                            try:
+                                send_bytes(obj_)
+                            finally:
+                                wrelease()
+                        # Remove references early to avoid leaking memory
+                        del obj, obj_""", """                        obj = dumps(obj, reducers=reducers)
+                        if wacquire is None:
+                            send_bytes(obj)
+                        else:
+                            wacquire()
+                            try:
+                                send_bytes(obj)
+                            finally:
+                                wrelease()
+                        # Remove references early to avoid leaking memory
+                        del obj""")),
+    M("spawn-routine-early-return-at-exit", ["C07", "C08"], ["R-SPAWN-SITE"],
+      (PE, """    def _adjust_process_count(self):
+""", """    def _adjust_process_count(self):
+        if _global_shutdown:
+            return
+""")),
+    M("map-chunker-slices-each-iterable", ["C03"], ["R-MAP-SHAPE"],
+      (PE, """    it = zip(*iterables)
+    while True:
+        chunk = tuple(itertools.islice(it, chunksize))
+        if not chunk:
+            return
+        yield chunk""", """    iterators = [iter(iterable) for iterable in iterables]
+    while iterators:
+        chunk = tuple(tuple(itertools.islice(it, chunksize)) for it in iterators)
+        if not all(chunk):
+            return
+        yield chunk"""),
+      (PE, """    return [fn(*args) for args in chunk]""", """    return list(map(fn, *chunk))""")),
     # ------------------------------------------------------- R-SCN-* (polarity)
     M("scn-wakeup-inverted", ["C01", "C02", "C05"], ["R-SCN-WAKEPRIM"],
       (PE, """    def wakeup(self):
